@@ -208,13 +208,19 @@ def run(chk, repo, tier):
                f"modulo p^12−1: {same}" + (f"; helpers recognised as Frobenius powers: {', '.join(recognised)}" if recognised else ""), f.where)
     # ---------------------------------------------------------------- R2
     m = repo.module(OPT_BLS)
-    table = it0.eval_global(m, "exptable")
     p = SP.BLS["p"]
     F12 = ExtField(p, (2, 0, 0, 0, 0, 0, -2, 0, 0, 0, 0, 0))
     want = [F12.pow(tuple(1 if j == i else 0 for j in range(12)), p) for i in range(12)]
-    okT = isinstance(table, (list, tuple)) and len(table) == 12 and all(isinstance(t, FieldVal) and t.v == wv for t, wv in zip(table, want))
-    chk.ob("C12.R2", f"{OPT_BLS}.exptable", "[(w^i)^p for i in 0..11]", okT,
-           f"{len(table) if isinstance(table, (list, tuple)) else '?'} entries", m.relpath)
+    try:
+        table = it0.eval_global(m, "exptable")
+    except AnalysisError as e:
+        if "unresolved name" not in str(e):
+            raise
+        table = None             # no module-level table: exp_by_p alone is held to x ↦ x^p below
+    if table is not None:
+        okT = isinstance(table, (list, tuple)) and len(table) == 12 and all(isinstance(t, FieldVal) and t.v == wv for t, wv in zip(table, want))
+        chk.ob("C12.R2", f"{OPT_BLS}.exptable", "[(w^i)^p for i in 0..11]", okT,
+               f"{len(table) if isinstance(table, (list, tuple)) else '?'} entries", m.relpath)
     f = repo.func(f"{OPT_BLS}.exp_by_p")
     FQ12 = it0.eval_global(m, "FQ12")
     mc = it0.class_attr(FQ12, "FQ12_MODULUS_COEFFS")
